@@ -17,11 +17,18 @@ ASSUMPTIONS = [
 ]
 
 
+# the rescaling of targets for easy samples is rounding-sensitive in the (hard, easy) count pair, so the
+# menu covers a square of small counts plus a long one-sided range for each class
+EASY_Q = [[a, b] for a in range(4) for b in range(4)] + [[e, 0] for e in range(4, 14)] + [[0, e] for e in range(4, 14)]
+EASY_T = ([[a, b] for a in range(5) for b in range(5)] + [[e, 0] for e in range(5, 41)] + [[0, e] for e in range(5, 41)]
+          + [[7, 7], [10, 3], [3, 10], [27, 1], [1, 27]])
+
+
 def bounds(tier):
     if tier == "quick":
-        return {"max_pos": 3, "max_neg": 3, "easy": [[a, b] for a in range(4) for b in range(4)],
+        return {"max_pos": 3, "max_neg": 3, "easy": EASY_Q,
                 "grids": ["irregular", "dyadic", "int"], "targets": tc.EXTREME_TARGETS}
-    return {"max_pos": 5, "max_neg": 5, "easy": [[a, b] for a in (0, 1, 2, 3, 7) for b in (0, 1, 2, 3, 7)],
+    return {"max_pos": 5, "max_neg": 5, "easy": EASY_T,
             "grids": ["irregular", "dyadic", "int", "negated", "ulp"], "targets": tc.EXTREME_TARGETS}
 
 
